@@ -65,7 +65,7 @@ U.fn(F, 'exec', attrs=['exec_allows_no_decreases_clause'],
                decreases='__it0.decrease().unwrap()'),
        1: dict(after_iter_init='let ghost files1 = __it1.remaining(); let ghost mut n1: int = 0;',
                invariant=['0 <= n1 <= files1.len()', '__it1.remaining() =~= files1.skip(n1)', '__it1.obeys_prophetic_iter_laws()', '__it1.decrease() is Some', 'files1 =~= ws_files(db)',
-                          'has_keys(diagnostic_map@, files1, n1)', 'all_empty(diagnostic_map@)'],
+                          C('has_keys(diagnostic_map@, files1, n1)', name='every workspace file visited so far has an entry'), 'all_empty(diagnostic_map@)'],
                ensures=['has_keys(diagnostic_map@, ws_files(db), ws_files(db).len() as int)'],
                body_prologue='proof { assert(files1.skip(n1)[0] == files1[n1]); n1 = n1 + 1; }',
                decreases='__it1.decrease().unwrap()'),
